@@ -21,19 +21,20 @@ import units  # noqa: E402
 LEVEL = 'proof'
 META = {
     'text': 'Coq theorems (Props/C19.v) about an executable by-reference model of HandshakeSettings.validate(), for all '
-            'heaps, settings objects (unbounded lists), domain tables and installation flags: frame condition '
-            '(refuted at cipherImplementations, proved for every other cell), idempotence, supported-only output, '
-            'acceptance inside / ValueError outside the documented domains (refuted on 4 dimensions, proved for the rest). '
+            'heaps, settings objects (unbounded lists), domain tables and installation flags: full frame condition '
+            '(every pre-existing cell unchanged, any outcome), idempotence, supported-only output, acceptance inside / '
+            'ValueError outside all 32 documented domains (validate() decides exactly the documented domains). '
             'The model is evaluated by vm_compute against the real validate() on generated objects (identity and content '
             'of every attribute before/after); the second sentence (compatible pairs connect) is checked by evaluating '
             'the Gallina predicate `compatible` on configuration pairs against live handshakes.',
     'note': 'Trusted: Coq kernel + vm_compute; the hand model (tied by correspondence, not by translation; tables, flags '
             'and the copy/validate skeleton are regenerated from the ast); Spec/C19_Domain.v as the reading of the '
             'documentation; scalar attributes are typed in the model (wrong-typed scalars/containers are examined on '
-            'the implementation only). Idempotence is proved under "no other attribute shares the cipherImplementations '
-            'list". "compatible settings connect" is correspondence-tied only (negotiation model is C03), i.e. partial.',
+            'the implementation only). "compatible settings connect" is correspondence-tied only (negotiation model is '
+            'C03), i.e. partial.',
     'technique': 'Rocq/Coq proof over hand model with by-reference heap + generated tables + vm_compute correspondence + live handshakes',
 }
+RUN = '_%d' % os.getpid()     # concurrent C19 runs must not share coq/_cases file names
 IMPORTS = ['Gen.SettingsTables', 'Model.C19_Settings', 'Model.C19_Repo', 'Spec.C19_Domain']
 MODEL_TARGETS = ['Gen/SettingsTables.vo', 'Model/C19_Settings.vo', 'Model/C19_Repo.vo', 'Spec/C19_Domain.vo', 'Spec/C19_Compat.vo']
 
@@ -209,7 +210,6 @@ def run(ctx):
     ]
     ctx.assumptions += [
         'scalar attributes have their documented Python type in the Coq model (wrong-typed scalars/containers: implementation only)',
-        'validate_idempotent: no other attribute shares the list object of cipherImplementations',
         'compatible-settings-connect: correspondence only (no negotiation model here; see C03)',
     ]
     inst = G.installation()
@@ -243,7 +243,7 @@ def run(ctx):
     if res['model_ok'] and tie_broken is None:
         idx = [i for i, o in enumerate(outs) if o[2]['rep'] and o[2]['lit']]
         lits = [outs[i][2]['lit'] for i in idx]
-        bad, errs = vlib.coq_bad_indices('C19', IMPORTS, 'obs', 'chk_validate', lits,
+        bad, errs = vlib.coq_bad_indices('C19' + RUN, IMPORTS, 'obs', 'chk_validate', lits,
                                          shard=max(8, (len(lits) + 15) // 16) if quick else 60)
         for k, i in enumerate(idx):
             d_, l_, o_ = outs[i]
@@ -265,14 +265,14 @@ def run(ctx):
             dmeta.append((labels, o['dv'] + o['te']))
             if o['result'] is not None:
                 sl_.append('(%s, %s)' % (M.settings_lit(o['result']), vlib.boollit(not G.unsupported_names(o['result'], inst))))
-        bad_d, errs = vlib.coq_bad_indices('C19d', IMPORTS, '((heap * settings) * bool)', 'chk_domain', dl,
+        bad_d, errs = vlib.coq_bad_indices('C19d' + RUN, IMPORTS, '((heap * settings) * bool)', 'chk_domain', dl,
                                            shard=max(8, (len(dl) + 15) // 16) if quick else 60, preamble=PREAMBLE)
         for e in errs:
             tie_broken = tie_broken or ('domain evaluation failed: ' + e[:400])
         for i in bad_d[:3]:
             tie_broken = tie_broken or ('Coq domain spec and Python domain oracle disagree on %s %s' % dmeta[i])
             ctx.log('domain spec disagreement: %s %s' % dmeta[i])
-        bad_s, errs = vlib.coq_bad_indices('C19s', IMPORTS, '((heap * settings) * bool)', 'chk_supported', sl_,
+        bad_s, errs = vlib.coq_bad_indices('C19s' + RUN, IMPORTS, '((heap * settings) * bool)', 'chk_supported', sl_,
                                            shard=max(8, (len(sl_) + 15) // 16) if quick else 60, preamble=PREAMBLE)
         for e in errs:
             tie_broken = tie_broken or ('supported evaluation failed: ' + e[:400])
